@@ -344,6 +344,28 @@ func (c *Ctx) Eq(a, b *Term) *Term {
 	if a.IsConst() && b.Op == "ite" && b.Args[1].IsConst() && b.Args[2].IsConst() {
 		return c.Ite(b.Args[0], c.Eq(b.Args[1], a), c.Eq(b.Args[2], a))
 	}
+	// (x & 2^k) == v  is a test of bit k
+	for pass := 0; pass < 2; pass++ {
+		if b.IsConst() && a.Op == "bvand" && a.Args[1].IsConst() && bits.OnesCount64(a.Args[1].V) == 1 {
+			k := bits.TrailingZeros64(a.Args[1].V)
+			bit := c.Extract(k, k, a.Args[0])
+			switch b.V {
+			case 0:
+				return c.Eq(bit, c.Const(0, 1))
+			case a.Args[1].V:
+				return c.Eq(bit, c.Const(1, 1))
+			default:
+				return c.False
+			}
+		}
+		a, b = b, a
+	}
+	if a.S.Kind == KBV && a.S.W == 1 && a.IsConst() {
+		a, b = b, a
+	}
+	if a.S.Kind == KBV && a.S.W == 1 && b.IsConst() && b.V == 0 {
+		return c.Not(c.Eq(a, c.Const(1, 1)))
+	}
 	if a.id > b.id {
 		a, b = b, a
 	}
@@ -627,6 +649,23 @@ func (c *Ctx) cmp(op string, a, b *Term) *Term {
 	}
 	if op == "bvult" && b.IsConst() && b.V == 0 {
 		return c.False
+	}
+	// comparisons against the sign boundary are tests of the top bit
+	top := uint64(1) << uint(w-1)
+	msb := func(x *Term) *Term { return c.Eq(c.Extract(w-1, w-1, x), c.Const(1, 1)) }
+	switch {
+	case op == "bvule" && a.IsConst() && a.V == top:
+		return msb(b)
+	case op == "bvult" && b.IsConst() && b.V == top:
+		return c.Not(msb(a))
+	case op == "bvult" && a.IsConst() && a.V == top-1:
+		return msb(b)
+	case op == "bvule" && b.IsConst() && b.V == top-1:
+		return c.Not(msb(a))
+	case op == "bvslt" && b.IsConst() && b.V == 0:
+		return msb(a)
+	case op == "bvsle" && a.IsConst() && a.V == 0:
+		return c.Not(msb(b))
 	}
 	if w <= 64 && (op == "bvult" || op == "bvule") {
 		if b.IsConst() {
@@ -965,13 +1004,26 @@ type Script struct {
 	HasQuant bool
 }
 
+// ScriptAbstract renders a QF_BV over-approximation of the problem: every array read and every
+// uninterpreted application of bit-vector/boolean sort becomes a fresh constant. If the
+// abstraction is unsatisfiable so is the original; a "sat" answer for it means nothing.
+// Returns nil when the problem has quantifiers or array-sorted terms that cannot be abstracted.
+func (c *Ctx) ScriptAbstract(asserts []*Term) *Script {
+	return c.script(asserts, nil, "QF_BV", false, true)
+}
+
 func (c *Ctx) Script(asserts []*Term, gets []*Term, logic string, produceModels bool) *Script {
+	return c.script(asserts, gets, logic, produceModels, false)
+}
+
+func (c *Ctx) script(asserts []*Term, gets []*Term, logic string, produceModels bool, abstract bool) *Script {
 	// count references among closed terms
 	refs := map[int]int{}
 	var order []*Term
 	seen := map[int]bool{}
 	hasQ := false
 	var visit func(t *Term)
+	absOK := true
 	visit = func(t *Term) {
 		refs[t.id]++
 		if seen[t.id] {
@@ -980,6 +1032,14 @@ func (c *Ctx) Script(asserts []*Term, gets []*Term, logic string, produceModels 
 		seen[t.id] = true
 		if t.Op == "forall" || t.Op == "exists" {
 			hasQ = true
+		}
+		if abstract && (t.Op == "select" || t.Op == "app") && t.S.Kind != KArray {
+			// leaf of the abstraction
+			order = append(order, t)
+			return
+		}
+		if abstract && t.S.Kind == KArray {
+			absOK = false
 		}
 		for _, a := range t.Args {
 			visit(a)
@@ -991,6 +1051,9 @@ func (c *Ctx) Script(asserts []*Term, gets []*Term, logic string, produceModels 
 	}
 	for _, g := range gets {
 		visit(g)
+	}
+	if abstract && (!absOK || hasQ) {
+		return nil
 	}
 	named := map[int]string{}
 	var b strings.Builder
@@ -1004,6 +1067,11 @@ func (c *Ctx) Script(asserts []*Term, gets []*Term, logic string, produceModels 
 	var decls []string
 	declSeen := map[string]bool{}
 	for _, t := range order {
+		if abstract && (t.Op == "select" || t.Op == "app") {
+			decls = append(decls, fmt.Sprintf("(declare-const abs%d %s)", t.id, t.S))
+			named[t.id] = fmt.Sprintf("abs%d", t.id)
+			continue
+		}
 		switch t.Op {
 		case "var":
 			if !declSeen[t.Name] {
@@ -1088,7 +1156,12 @@ func (c *Ctx) Script(asserts []*Term, gets []*Term, logic string, produceModels 
 			fmt.Fprintf(&b, "(assert (bvule %s %s))\n", qs, bvLit(mask(x.S.W)/k.V, x.S.W))
 		}
 	}
+	emitted := map[int]bool{}
 	for _, a := range asserts {
+		if a.IsTrue() || emitted[a.id] {
+			continue
+		}
+		emitted[a.id] = true
 		fmt.Fprintf(&b, "(assert %s)\n", pr(a))
 	}
 	b.WriteString("(check-sat)\n")
